@@ -50,6 +50,11 @@ func genC18(seed uint64, tier string, idx int) *Plan {
 	}
 	p.Note = "scenario of " + p.Prop
 	p.Prop = "C18"
+	if (sel == 2 && seed%2 == 0) || seed%7 == 0 {
+		// the library's default event object(s) instead of the recording ones: their fields are application state
+		// that connection goroutines touch too
+		p.Svc.DefaultEvents = true
+	}
 	if p.Svc.Handlers == "default" && seed%3 == 0 {
 		p.Svc.Handlers = "record" // callbacks that read the message they are given, as user handlers do
 	}
